@@ -39,7 +39,8 @@ var c12 struct {
 	once    sync.Once
 	i       *prolog.Interpreter
 	ticks   [2]int64
-	blocked int // cases that ended in a blocked call so far (each costs a watchdog period and leaks goroutines)
+	blocked int // cases that ended in a blocked call or a goroutine that did not go away so far
+	//            (each costs a watchdog / settle period and leaks goroutines)
 }
 
 // after this many blocked cases in one process the remaining cases are not run any more: the failing
@@ -229,9 +230,11 @@ func runC12Seq(payload string) string {
 	work := atomic.LoadInt64(&c12.ticks[0])
 	// clean up for the next case (not part of the observation)
 	if !blocked {
-		_ = sols.Close()
+		cons.call(sols, 'C')
 		cons.stop()
-		c12Settle(base-1, 0, true)
+		if (mayExit && g != 0) || c12Settle(base-1, 0, true) != 0 {
+			c12.blocked++ // a goroutine that should be gone is still there
+		}
 	}
 	nt := 0
 	if afterEnd > 0 {
@@ -363,10 +366,12 @@ func runC12Inter(payload string) string {
 	g := c12Settle(base, want, !blocked)
 	wa, wb := atomic.LoadInt64(&c12.ticks[0]), atomic.LoadInt64(&c12.ticks[1])
 	if !blocked {
-		_ = sols[0].Close()
-		_ = sols[1].Close()
+		cons.call(sols[0], 'C')
+		cons.call(sols[1], 'C')
 		cons.stop()
-		c12Settle(base-1, 0, true)
+		if g != want || c12Settle(base-1, 0, true) != 0 {
+			c12.blocked++
+		}
 	}
 	nt := 0
 	if switches >= 2 {
